@@ -48,6 +48,10 @@ def run(chk, build):
         terms.append(t)
         meta.append({"key": s, "cu": cu, "snake": snake})
         chk.count(key=("label", s, cu, snake))
+    bad = names.oracle_hypotheses()
+    chk.obligation("oracle premises of the label theorems hold for str.lower / re \\w / unidecode over every code point", not bad, "; ".join(bad[:3]))
+    if bad:
+        chk.fail_nowitness("oracle premises of Props/C11.v: " + "; ".join(bad[:3]))
     dis = []
     base.run_view(chk, "Vnames", "X-names", terms, meta, dis, shard=200)
     if dis and not chk.violations:
